@@ -11,6 +11,16 @@ import (
 )
 
 func (i *Interpreter) resolveIncludeStatement(statements []ast.Statement, isRoot bool) ([]ast.Statement, error) {
+	return i.resolveIncludePath(statements, isRoot, make(map[string]bool))
+}
+
+// including holds the modules on the current include path in order to detect recursive inclusion
+func (i *Interpreter) resolveIncludePath(
+	statements []ast.Statement,
+	isRoot bool,
+	including map[string]bool,
+) ([]ast.Statement, error) {
+
 	var resolved []ast.Statement
 	for _, stmt := range statements {
 		if include, ok := stmt.(*ast.IncludeStatement); ok {
@@ -22,11 +32,19 @@ func (i *Interpreter) resolveIncludeStatement(statements []ast.Statement, isRoot
 				}
 				continue
 			}
+			// A module which includes itself (directly or through other modules) would be expanded forever
+			if including[include.Module.Value] {
+				return nil, exception.Runtime(
+					&stmt.GetMeta().Token, "VCL module '%s' is included recursively", include.Module.Value,
+				)
+			}
 			included, err := i.includeFile(include, isRoot)
 			if err != nil {
 				return nil, exception.Runtime(&stmt.GetMeta().Token, "%s", err.Error())
 			}
-			recursive, err := i.resolveIncludeStatement(included, isRoot)
+			including[include.Module.Value] = true
+			recursive, err := i.resolveIncludePath(included, isRoot, including)
+			delete(including, include.Module.Value)
 			if err != nil {
 				return nil, err
 			}
